@@ -9,7 +9,7 @@
    (x, x' range over ALL functions nat -> nat -> Z, not only over matrices). *)
 From Coq Require Import List ZArith Lia Bool.
 Import ListNotations.
-Require Import CV.LpCert CV.Ssp CV.SspProofs.
+Require Import CV.LpCert CV.Ssp CV.SspProofs CV.SspSafety.
 Local Open Scope Z_scope.
 
 (* [F] Soundness of the LP certificate checker, for all problems, plans and potentials: whenever the
@@ -48,6 +48,26 @@ Theorem c13_ssp_feasible_partial :
   forall pb x, check_pb pb = true -> ssp pb = Ok x -> pb_feasible pb (plan_f x).
 Proof. exact ssp_feasible_checked. Qed.
 
+(* [F], safety of the RAW algorithm on the whole domain of C13, no size bound: for every problem accepted by
+   check() with costs in [0, INT_MAX) and total demand <= total capacity, the model of run() either returns a
+   feasible plan or exhausts the fuel of one of its loops.  It never fails an assertion (cpp:467, 516, 522, 526,
+   533, 609) and never calls top() on an empty queue (cpp:47/55 reached from 502, 521, 535, 538, 541), whatever
+   the tie-breaking did.  Invariants: G (previous theorem), Qinv (every full sink's queues contain all sources
+   with a non-zero allocation there and have such a source on top), Tinv (sinkParent_ points from full sinks to
+   sinks of finite sendingCost_; a parentless sink of finite cost has spare capacity; free sinks cost 0), and the
+   accounting "outstanding demand <= sum of remainingCapa_".
+   _partial: the remaining gap to the full statement is (i) termination of updateTree's label-correcting loop and
+   of the two chain walks (fuel ids 483, 519, 532; 464 is excluded by the next theorem) and (ii) minimality. *)
+Theorem c13_ssp_safe_partial :
+  forall pb, check_pb pb = true -> (forall j i, 0 <= cost pb j i < INT_MAX) ->
+  total_demand pb <= total_capacity pb ->
+  match ssp pb with
+  | Ok x => pb_feasible pb (plan_f x)
+  | Fail (EFuel _) => True
+  | Fail _ => False
+  end.
+Proof. exact ssp_safe. Qed.
+
 (* [F] the `while (remaining > 0)` loop of sendSource(src) never exhausts the fuel the model gives
    it (every iteration sends at least one unit): its [Fail (EFuel 464)] outcome is impossible. *)
 Theorem c13_send_loop_fuel_suffices :
@@ -84,15 +104,13 @@ Theorem c13_to_assignment_argmax :
     (forall k, (k < r)%nat -> get2 al k i < get2 al r i).
 Proof. exact to_assignment_argmax. Qed.
 
-(* [F] the boolean form of the same statement, as run on the C++ assignment *)
+(* [F] the boolean form of C13's own clause ("the sink that receives most of it"; which one among
+   equals is not prescribed), as run on the C++ assignment *)
 Theorem c13_argmaxb_sound :
   forall pb x a, argmaxb pb x a = true ->
   length a = nsrc pb /\
   forall i, (i < nsrc pb)%nat ->
-    let r := nth i a 0%nat in
-    (r < nsnk pb)%nat /\
-    (forall k, (k < nsnk pb)%nat -> get2 x k i <= get2 x r i) /\
-    (forall k, (k < r)%nat -> get2 x k i < get2 x r i).
+    (nth i a 0%nat < nsnk pb)%nat /\ forall k, (k < nsnk pb)%nat -> get2 x k i <= get2 x (nth i a 0%nat) i.
 Proof. exact argmaxb_sound. Qed.
 
 (* [F] increaseCapacity: demands and costs untouched; afterwards total capacity >= total demand;
@@ -141,6 +159,15 @@ Example c13_checker_rejects :
   check_plan ex_pb [[0; 0; 1; 2]; [0; 2; 0; 0]; [2; 1; 0; 0]] = false.
 Proof. vm_compute. repeat split; reflexivity. Qed.
 
+Example c13_safe_nonvacuous :
+  check_pb ex_pb = true /\ (forall j i, 0 <= cost ex_pb j i < INT_MAX) /\
+  total_demand ex_pb <= total_capacity ex_pb /\ total_demand ex_pb = 8.
+Proof.
+  split; [reflexivity|]. split; [|split; [vm_compute; discriminate|reflexivity]].
+  intros j i. unfold cost, get2, ex_pb, INT_MAX. cbn [costs].
+  destruct j as [|[|[|[|j]]]]; cbn [nth]; destruct i as [|[|[|[|[|i]]]]]; cbn [nth]; lia.
+Qed.
+
 Example c13_bounded_nonvacuous :
   in_small_domain 3 3 2 1 2 (mkPb [1; 1; 2] [1; 1; 1] [[0; 2; 1]; [0; 0; 2]; [1; 2; 2]]) /\
   ssp (mkPb [1; 1; 2] [1; 1; 1] [[0; 2; 1]; [0; 0; 2]; [1; 2; 2]]) = Ok [[0; 0; 1]; [0; 1; 0]; [1; 0; 0]].
@@ -163,6 +190,7 @@ Print Assumptions c13_certificate_sound.
 Print Assumptions c13_check_plan_sound.
 Print Assumptions c13_checked_solver_sound.
 Print Assumptions c13_ssp_feasible_partial.
+Print Assumptions c13_ssp_safe_partial.
 Print Assumptions c13_send_loop_fuel_suffices.
 Print Assumptions c13_optimal_bounded.
 Print Assumptions c13_to_assignment_argmax.
